@@ -241,7 +241,7 @@ func absMain(args []string) int {
 		for _, d := range defs {
 			parts := strings.SplitN(d, "\x00", 3)
 			sb.WriteString(fmt.Sprintf("Definition t%s : list (aevent * list (N * obs)) := [\n%s].\n", parts[0], parts[2]))
-			rs = append(rs, fmt.Sprintf("(%s%%nat, match run %s t%s with Ok _ => 0%%nat | Fail c => S c end)", parts[0], parts[1], parts[0]))
+			rs = append(rs, fmt.Sprintf("(%s%%nat, match run %s t%s with ROk _ => (0%%nat, 0%%nat) | RFail k c => (S k, c) end)", parts[0], parts[1], parts[0]))
 		}
 		sb.WriteString("Definition R := Eval vm_compute in [" + strings.Join(rs, "; ") + "].\nPrint R.\n")
 		if err := ioutil.WriteFile(filepath.Join(out, fmt.Sprintf("cases_abs_%d.v", nfiles)), []byte(sb.String()), 0644); err != nil {
@@ -250,11 +250,57 @@ func absMain(args []string) int {
 		nfiles++
 		defs = nil
 	}
+	finish := func(c *simCluster, id int, what string, nvoters int) {
+		if c.abs.bad != "" {
+			errs = append(errs, c.abs.bad)
+			return
+		}
+		var voters []string
+		for v := 1; v <= nvoters; v++ {
+			voters = append(voters, fmt.Sprint(v))
+		}
+		desc[strconv.Itoa(id)] = fmt.Sprintf("run %d (%s): %d nodes (%d voters), %d abstract events", id, what, len(c.ids), nvoters, len(c.abs.events))
+		defs = append(defs, fmt.Sprintf("%d\x00[%s]\x00%s", id, strings.Join(voters, ";"), strings.Join(c.abs.events, ";\n")))
+		total += len(c.abs.events)
+		for k, v := range c.abs.dist {
+			dist[k] += v
+		}
+		if len(samples) < 3 && len(c.abs.events) > 12 {
+			samples = append(samples, strings.Join(c.abs.events[8:11], "; "))
+		}
+		// keep the event list of each run for the replay
+		_ = ioutil.WriteFile(filepath.Join(out, fmt.Sprintf("abs_run_%d.txt", id)), []byte(strings.Join(c.abs.events, "\n")), 0644)
+		if len(defs) >= perFile {
+			flush()
+		}
+	}
+	// the corpus first: targeted schedules without membership changes or snapshots
+	nsc := 0
+	for _, sc := range scenarios {
+		if !sc.static {
+			continue
+		}
+		nsc++
+		c := newScenarioCluster(w, out, sc.size, seed)
+		c.static, c.abs = true, newAbsShadow()
+		func() {
+			defer func() {
+				if v := recover(); v != nil {
+					errs = append(errs, fmt.Sprintf("scenario %s: harness panic %v", sc.name, v))
+				}
+			}()
+			c.note("scenario %s", sc.name)
+			sc.run(c)
+			c.abs.closing(c)
+		}()
+		c.close()
+		finish(c, nsc, "scenario "+sc.name, sc.size)
+	}
 	for s := 0; s < nseq; s++ {
 		c := &simCluster{rnd: rnd, w: w, base: simTempDir(out, "ab"), opt: simOptions(1 << 20), nodes: map[uint64]*simNode{}, dirs: map[uint64]string{},
 			epoch: map[uint64]int{}, reqs: map[*replication]*appendReq{}, pipes: map[[2]uint64][]*simMsg{}, await: map[[2]uint64]int{}, piping: map[[2]uint64]bool{}, upd: map[uint64][]replUpdate{},
 			tasks: map[uint64][]*simTask{}, asked: map[uint64]map[uint64]bool{}, respCh: map[uint64]chan rpcResponse{},
-			elected: map[uint64]uint64{}, entries: map[[2]uint64]string{}, committed: map[uint64]string{}, static: true, abs: newAbsShadow()}
+			elected: map[uint64]uint64{}, entries: map[[2]uint64]string{}, committed: map[uint64]string{}, static: true, abs: newAbsShadow(), calm: s%2 == 1}
 		if s%3 == 2 {
 			c.opt = simOptions(1024) // small segments: roll-over flushes
 		}
@@ -264,13 +310,8 @@ func absMain(args []string) int {
 			nonvoters = 1
 		}
 		boot := map[uint64]Node{}
-		var voters []string
 		for id := uint64(1); id <= uint64(size); id++ {
-			v := id <= uint64(size-nonvoters)
-			boot[id] = Node{ID: id, Addr: fmt.Sprintf("M%d:8888", id), Voter: v}
-			if v {
-				voters = append(voters, fmt.Sprint(id))
-			}
+			boot[id] = Node{ID: id, Addr: fmt.Sprintf("M%d:8888", id), Voter: id <= uint64(size-nonvoters)}
 		}
 		c.boot = boot
 		ok := true
@@ -290,37 +331,14 @@ func absMain(args []string) int {
 			n.kill()
 		}
 		os.RemoveAll(c.base)
-		if !ok {
-			continue
-		}
-		if c.abs.bad != "" {
-			errs = append(errs, c.abs.bad)
-			continue
-		}
-		id := s + 1
-		tail := c.trace
-		if len(tail) > 40 {
-			tail = tail[len(tail)-40:]
-		}
-		desc[strconv.Itoa(id)] = fmt.Sprintf("run %d: %d nodes (%d voters), %d abstract events", id, size, size-nonvoters, len(c.abs.events))
-		defs = append(defs, fmt.Sprintf("%d\x00[%s]\x00%s", id, strings.Join(voters, ";"), strings.Join(c.abs.events, ";\n")))
-		total += len(c.abs.events)
-		for k, v := range c.abs.dist {
-			dist[k] += v
-		}
-		if len(samples) < 3 && len(c.abs.events) > 12 {
-			samples = append(samples, strings.Join(c.abs.events[8:11], "; "))
-		}
-		// keep the event list of each run for the replay
-		_ = ioutil.WriteFile(filepath.Join(out, fmt.Sprintf("abs_run_%d.txt", id)), []byte(strings.Join(c.abs.events, "\n")), 0644)
-		if len(defs) >= perFile {
-			flush()
+		if ok {
+			finish(c, nsc+s+1, "random", size-nonvoters)
 		}
 	}
 	flush()
 	findings = append(findings, w.findings...)
 	sort.Strings(findings)
-	meta := map[string]interface{}{"runs": nseq, "events": total, "files": nfiles, "dist": dist, "desc": desc, "samples": samples, "errors": errs,
+	meta := map[string]interface{}{"runs": nseq + nsc, "events": total, "files": nfiles, "dist": dist, "desc": desc, "samples": samples, "errors": errs,
 		"findings": findings, "seed": seed}
 	mb, _ := json.Marshal(meta)
 	if err := ioutil.WriteFile(filepath.Join(out, "abs_meta.json"), mb, 0644); err != nil {
